@@ -3,15 +3,44 @@ from vlib import core
 from props import keys_gen
 
 ID = "C50"
-LEVEL = "proof"
+LEVEL = "partial"
 DESIGN_REF = "DESIGN.md section 5, C50"
 PROP_FILES = ["props/Properties_C50.v"]
-RULE = "TODO"
-ASSUMPTIONS = []
-TRUSTED = []
+RULE = ("scalar_fn: secp256k1_ecdsa_signature_parse_compact + normalize (+ CPubKey::CheckLowS on the DER form), ec_seckey_verify / "
+        "negate / tweak_add / tweak_mul on 0, 1, 2, n/2-1, n/2, n/2+1, n/2+2, n-2, n-1, n, n+1, p-1, p, 2^256-1, every 64-bit limb "
+        "of n and n/2 moved by +-1 / zeroed / saturated, and random values; point_fn: ec_pubkey_parse of valid compressed keys with "
+        "both tags, uncompressed, hybrid with right and wrong parity, off-curve, x in {0..7, p-3..p+2, 2^256-1, n, 52-bit limb patterns "
+        "of p}, wrong lengths / tags; ec_pubkey_create for 0, 1, 2, n-1, n, n+1, 2^256-1; ec_pubkey_tweak_add incl. t = n-k (infinity), "
+        "t = 0, t >= n; negate; xonly_from_pubkey with both parities; xonly_parse; xonly_tweak_add + tweak_add_check with the right and "
+        "the wrong parity; ECDSA verification (library strict / CPubKey::Verify) of valid low-S signatures, their high-S twins, "
+        "message >= n, wrong message, r = 0, s = 0, s = n; CKey::Sign (RFC6979 nonce, low-S, low-R grinding) compared byte for byte. Non-trivial = every case; distinct = distinct case lines.")
+ASSUMPTIONS = ["the model (model/EC.v) is a hand transcription of the library's API-level behaviour over mathematical integers; limb-level code "
+               "other than the three comparisons modelled (scalar overflow, is_high, field range) and all constant-time/representation "
+               "details are covered only by the correspondence",
+               "premises of the compressed-key / x-only round trips: SECP256K1_P is prime; the library's square root succeeds on squares "
+               "(Euler's criterion for p = 3 mod 4; stated as a premise about the model's addition chain)",
+               "premises of the ECDSA theorems: commutative group in which every point has order dividing n, x(-P) = x(P), an inverse mod n",
+               "Schnorr/BIP340, taproot tweak hashing, ECDH and ElligatorSwift are NOT covered by this check; signing is modelled (RFC6979 via the executable HMAC-SHA256 model) and tied by byte-equal signatures, its sign-then-verify theorem is over the abstract group"]
+TRUSTED = ["Coq 8.16.1 kernel (coqc; vm_compute; no native_compute)",
+           "tie/params/keys.h recovers n, p, G and the low-S threshold from the behaviour of the compiled library's public API "
+           "(seckey_negate(1), pubkey_negate(G), bisection on signature_normalize) and prints them",
+           "extraction: ExtrOcamlBasic only; ocaml/conv.ml + ec_driver.ml glue",
+           "tie/drivers/ec_drv.cpp calls the libsecp256k1 API and CPubKey::CheckLowS / Verify / IsFullyValid, XOnlyPubKey::IsFullyValid, CKey::Set and prints the results"]
 
 TIES = [Tie("scalar_fn", "tie/drivers/ec_drv.cpp", "Extract_EC.v", "ec_driver.ml", keys_gen.gen_ec_light, predicate="driver"),
         Tie("point_fn", "tie/drivers/ec_drv.cpp", "Extract_EC.v", "ec_driver.ml", keys_gen.gen_ec_heavy, predicate="functional")]
-LEVEL_TEXT = "TODO"
-LEVEL_NOTE = "TODO"
-TECHNIQUE = "TODO"
+
+LEVEL_TEXT = ("Coq theorems over the constants of the compiled library: the limb-wise tests of the C code equal the integer comparisons "
+              "(is_high s <=> s > n/2, overflow <=> s >= n, field range <=> x >= p); the low-S threshold observed on the compiled library is n/2; "
+              "signature_normalize maps s to min(s, n-s), reports s > n/2 and is idempotent; CheckLowS accepts exactly s <= n/2; secret-key "
+              "negate / tweak_add / tweak_mul are arithmetic mod n with exactly the documented failure cases; field reduction is mod p; "
+              "parse(serialize P) = P for uncompressed keys unconditionally and for compressed keys under the number-theoretic premises; "
+              "parse accepts only curve points with reduced coordinates and the right tag parity, rejects x >= p and non-residues; x-only "
+              "conversion keeps x, makes y even and reports the parity; tweak_add_check accepts exactly the x and parity of P + t*G; over any "
+              "group satisfying the premises ECDSA verification ignores the sign of s, strict verification = valid and low-S, and the "
+              "node's verification accepts (r, s) iff its normalised form verifies strictly, and every signature secp256k1_ecdsa_sig_sign produces is low-S and verifies. Model tied to the real library by "
+              "differential execution on boundary values.")
+LEVEL_NOTE = ("Partial: functional clauses only (scalar/field arithmetic, low-S, (de)compression, x-only, tweak add, ECDSA verification). "
+              "BIP340, ECDH and ElligatorSwift are not modelled. Group laws of the concrete curve, primality of p and Euler's "
+              "criterion are premises; the concrete affine point arithmetic of the model is validated only by the correspondence.")
+TECHNIQUE = "Coq proof (case analysis on limbs + lia, modular arithmetic, abstract group reasoning) + differential correspondence"
